@@ -16,6 +16,7 @@
     trace against the property-level module TieringProp.  A run is a violation when the
     driver's own judgement of the observations or TLC's replay says the property is broken.
 """
+import concurrent.futures
 import json
 import os
 import random
@@ -26,6 +27,12 @@ LEVEL = "model_checking"
 
 
 def run(ctx):
+    # ---- both binaries are built in the background while TLC runs
+    ov = ctx.make_overlay(["tiering"])
+    ctx.harness_dir()
+    pool = concurrent.futures.ThreadPoolExecutor(max_workers=1)
+    builds = pool.submit(lambda: (ctx.go_build("tiering", overlay=ov, timeout=2400),
+                                  ctx.go_build("tiering_child", overlay=ov, timeout=2400, pkg="./cmd/tiering/child")))
     # ---- (M)
     cfg = "MC_small.cfg" if ctx.quick() else "MC_large.cfg"
     mc = ctx.tlc("tiering", "Tiering", cfg, coverage=True, timeout=1500, workers=4)
@@ -56,9 +63,8 @@ def run(ctx):
     ctx.log("replaying %d behaviours (%d with <=1 fault, %d of %d with 2 faults)" % (len(scs), len(singles), len(pick), len(doubles)))
     sp = ctx.path("scenarios.json")
     json.dump(scs, open(sp, "w"))
-    ov = ctx.make_overlay(["tiering"])
-    binp = ctx.go_build("tiering", overlay=ov, timeout=2400)
-    childp = ctx.go_build("tiering_child", overlay=ov, timeout=2400, pkg="./cmd/tiering/child")
+    binp, childp = builds.result()
+    pool.shutdown()
     rp, tp = ctx.path("result.json"), ctx.path("trace.ndjson")
     ctx.run([binp, "-child", childp, "-scenarios", sp, "-out", rp, "-trace-out", tp, "-seed", str(ctx.seed)], timeout=3 * 3600)
     r = json.load(open(rp))
